@@ -104,6 +104,7 @@ type c12Path struct {
 	QuicSize int64         // datagram size QUIC starts with
 	Seed     int64         // size handed to NewBbrSender = seedPacketSize(QuicSize, guess by address)
 	Unit     time.Duration // duration of "1 RTT" in the macro-events (0: RTT)
+	ColdOnly bool          // loss-free part: only the run from a cold start and the mid-connection installations
 }
 
 func (p *c12Path) unit() int64 {
@@ -127,6 +128,18 @@ var c12Paths = []c12Path{
 	// part only (added after the independently seeded change C12-8: STARTUP ended before the first
 	// bandwidth sample on a sender installed mid-connection)
 	{Name: "1Gbit-20ms-q1bdp", Cap: 125000000, RTT: 20 * time.Millisecond, Queue: 2500000, AckEvery: 2, QuicSize: 1280, Seed: 1280},
+	// round-trip times that are not a whole number of milliseconds (LAN / data centre / loopback):
+	// below 1 ms with a bandwidth-delay product of ~390 datagrams (5 to 7 times a profile's gain *
+	// initial window), below 1 ms with one of ~49 datagrams, and between 1 and 2 ms; every other path
+	// has a whole-millisecond RTT. Cold start (every draw) and mid-connection installation only: the
+	// application-limited warm-ups are built on wall-clock constants (25 ms delayed ack, 200 ms pause,
+	// 200 ms PROBE_RTT after the 11 s idle) that are longer than the whole 200-RTT run here, so the
+	// utilisation of that run says nothing about them. Loss-free part only (added after the
+	// independently seeded change C12-12: the target window computed from the minimum RTT truncated
+	// to whole milliseconds, so it fell back to gain * initial window below 1 ms)
+	{Name: "5Gbit-800us-q1bdp", Cap: 625000000, RTT: 800 * time.Microsecond, Queue: 500000, AckEvery: 2, QuicSize: 1280, Seed: 1280, ColdOnly: true},
+	{Name: "1Gbit-500us-q1bdp", Cap: 125000000, RTT: 500 * time.Microsecond, Queue: 62500, AckEvery: 2, QuicSize: 1280, Seed: 1280, ColdOnly: true},
+	{Name: "1Gbit-1500us-q1bdp", Cap: 125000000, RTT: 1500 * time.Microsecond, Queue: 187500, AckEvery: 2, QuicSize: 1280, Seed: 1280, ColdOnly: true},
 }
 
 // long fat path on which the real maximum window (20000 datagrams) is reachable
